@@ -63,3 +63,8 @@ chk("C19", "exhaustive enumeration of all ordered type pairs over a bounded ARC-
     "type_spec_is_assignable_to is evaluated on every ordered pair of a bounded universe (exhaustive) and on generated deep types vs perturbed copies; whenever it answers True the two types must have the same ARC-4 layout (byte/uint8, address/byte[32], string/byte[], named/unnamed tuples identified) and sample values must re-encode identically; for differently shaped pairs, Subroutine argument passing and InnerTxnBuilder.MethodCall must refuse the value.",
     "Trusts algosdk.abi type grammar for layouts. Same-layout pairs may be refused (relation may be narrower).",
     "DESIGN.md section 2 C19")
+
+chk("C08", "model-based PBT: generated Router configurations, complete call matrix (selectors x OnCompletion x create) executed on the reference interpreter against a dispatch model written from the property statement",
+    "For each generated router (methods via add_method_handler / decorator with arbitrary MethodConfig, bare actions of every kind and CallConfig, optional clear_state) the whole call matrix is executed; exactly the handler the registration allows must run (unique tag) and every other call must be rejected; never-runnable or duplicate registrations must be refused; the clear-state program must be exactly the given action.",
+    "Trusts vf/avm and the 40-line dispatch model in vf/router/build.py.",
+    "DESIGN.md section 2 C08")
